@@ -21,6 +21,7 @@ mod c09;
 mod c19;
 mod c20;
 mod common;
+mod prims;
 
 use common::*;
 
@@ -86,7 +87,7 @@ fn main() {
     }
     let _saved_stderr = if std::env::var("VERIF_KEEP_STDERR").is_ok() { -1 } else { verif_rt::process::silence_stderr() };
     // processes that execute simulated code keep their own output apart from what that code prints
-    if matches!(args[1].as_str(), "--worker" | "--report" | "replay" | "selftest-determinism") {
+    if matches!(args[1].as_str(), "--worker" | "--report" | "replay" | "selftest-determinism" | "selftest-primitives") {
         verif_rt::process::silence_stdout();
     }
     verif_rt::process::install_dispatcher();
@@ -108,6 +109,10 @@ fn main() {
             }
             replay(&args[2])
         }
+        "selftest-primitives" => {
+            let runs = args.get(2).and_then(|s| s.parse().ok()).unwrap_or(2000);
+            prims::selftest(runs)
+        }
         "selftest-determinism" => {
             let runs = args.get(2).and_then(|s| s.parse().ok()).unwrap_or(2000);
             selftest_determinism(runs)
@@ -128,6 +133,8 @@ fn main() {
             }
         }
     };
+    // per-process scratch directory (workers' directories are removed by their parent as well)
+    let _ = std::fs::remove_dir_all(format!("/dev/shm/verif-sim-{}", std::process::id()));
     std::process::exit(code);
 }
 
